@@ -84,6 +84,9 @@ def cases(tier):
     for k in (1, 2, 3):
         for sel in itertools.permutations(range(len(POPITEMS)), k):
             yield dict(kind="popselect", sel=list(sel))
+    for d in (1, 2):
+        for seq in itertools.product(PROG_OPS, repeat=d):
+            yield dict(kind="purity_progs", seq=list(seq))
     yield dict(kind="cascade_results")
     yield dict(kind="cascade_data")
     ops = ["plotdata", "plot_series", "plot_bars", "plot_cascade", "cascade_vals", "export", "result_plot", "get_variable", "plotdata_flows", "copy"]
@@ -348,6 +351,56 @@ def run_cascade_data(case):
     return dict(states=n, transitions=0, nontrivial=True, violations=vs[:4], counters=dict(cascade_data_calls=n))
 
 
+PROG_OPS = ["programs_plot_fraction", "programs_plot_number", "programs_plot_spending", "export", "get_coverage", "plotdata", "result_plot"]
+
+
+def run_purity_progs(case):
+    """the same purity question for a result that was produced with programs (coverage / spending plots, export of programme quantities)"""
+    import matplotlib
+
+    matplotlib.use("agg")
+    import matplotlib.pyplot as plt
+    from mc import simspace
+    from mc.build import World
+
+    spec = simspace.combined_spec(0.25, prog=True)
+    spec["progs"]["progs"][0]["comps"] = ["sus", "vac"]  # a program reaching several (population, compartment) pairs
+    w = World(spec)
+    r = w.run(progs=True)
+    r.name = "res"
+    h0 = snap_hash(r, volatile=("_fcn", "_exec_order"))
+    ref = {(s_.pop, s_.output): np.array(s_.vals) for s_ in at.PlotData(r, outputs=["sus", "vac", "alive"], pops=["pa1", "pb1"]).series}
+    vs = []
+    tmp = tempfile.mkdtemp(prefix="c20p_", dir="/dev/shm" if os.path.isdir("/dev/shm") else None)
+    try:
+        for i, op in enumerate(case["seq"]):
+            if op.startswith("programs_plot_"):
+                q = dict(fraction="coverage_fraction", number="coverage_number", spending="spending")[op.split("_")[-1]]
+                at.plot_series(at.PlotData.programs(r, quantity=q))
+            elif op == "export":
+                at.export_results([r], os.path.join(tmp, f"e{i}.xlsx"))
+            elif op == "get_coverage":
+                for q in ("fraction", "number", "eligible", "capacity"):
+                    r.get_coverage(q)
+                r.get_alloc()
+            elif op == "plotdata":
+                at.PlotData(r, outputs=["sus", {"n": ["sus", "vac"]}], pops="total")
+            elif op == "result_plot":
+                r.plot()
+            plt.close("all")
+            if snap_hash(r, volatile=("_fcn", "_exec_order")) != h0:
+                vs.append(V("reporting-modifies-result", f"result with programs: after {case['seq'][: i + 1]} the result object differs from its state before reporting", None))
+                break
+            now = {(s_.pop, s_.output): np.array(s_.vals) for s_ in at.PlotData(r, outputs=["sus", "vac", "alive"], pops=["pa1", "pb1"]).series}
+            bad = [k for k in ref if not np.array_equal(ref[k], now[k], equal_nan=True)]
+            if bad:
+                vs.append(V("depends-on-earlier-requests", f"result with programs: after {case['seq'][: i + 1]} the output {bad[0]} differs from what the same request returned before", None))
+                break
+    finally:
+        shutil.rmtree(tmp, ignore_errors=True)
+    return dict(states=len(case["seq"]) + 1, transitions=len(case["seq"]), nontrivial=True, violations=vs[:2], counters=dict(purity_sequences=1))
+
+
 def run_purity(case):
     import matplotlib
 
@@ -402,4 +455,4 @@ def run_purity(case):
 
 
 def run_case(case):
-    return dict(select=run_select, popselect=run_popselect, addup=run_addup, cascade_results=run_cascade_results, cascade_data=run_cascade_data, purity=run_purity)[case["kind"]](case)
+    return dict(select=run_select, popselect=run_popselect, addup=run_addup, cascade_results=run_cascade_results, cascade_data=run_cascade_data, purity=run_purity, purity_progs=run_purity_progs)[case["kind"]](case)
